@@ -167,6 +167,8 @@ def opsOf (ds : DS) (ws : List String) (at_ : Nat) : Option (List Op) :=
   | "O" :: "tconn" :: _ => some []                     -- std http.Server: no nbio deadline before the transfer
   | "O" :: "wsup" :: _ => some [.set .r (at_ + ds.ka)]
   | "O" :: "msg" :: _ => some [.set .r (at_ + ds.ka)]
+  | "O" :: "ping" :: _ => some [.set .r (at_ + ds.ka)]   -- heartbeats renew the keep-alive like data messages
+  | "O" :: "pong" :: _ => some [.set .r (at_ + ds.ka)]
   | _ => none
 
 partial def loop (h : IO.FS.Stream) (ds : DS) : IO Unit := do
